@@ -19,7 +19,7 @@ ENGINE = "E3"
 TECHNIQUE = "controlled-scheduler exploration of the real bus watcher / serial receivers fed with enumerated traffic histories; reference automaton transcribed from the statement"
 RULE = ("histories of <= L bus transactions over an alphabet of 16 transaction kinds (plain, query+answer/silence/framing error, config "
         "twice/once/interrupted/+backward frame, enable-device-type + extended / unrelated command, 24-bit command, events, unknown "
-        "frames, stray backward frame) x gap placement (timer before report) x subscriber join/leave points x own sends; "
+        "frames, stray backward frame) x gap placement (timer before report) x subscriber join/leave points x own sends; a first subscriber that joins at every boundary while nobody was listening; "
         "all schedules with <= d deviations; serial receive queues additionally: every sequence of <= 6 (thorough 7) operations "
         "{frame arrives, subscriber k joins, subscriber k leaves}, k = 1..3, against set semantics; states = distinct (history, report list) observations")
 ASSUMPTIONS = [
@@ -29,7 +29,7 @@ ASSUMPTIONS = [
     "frames are decoded with the device type of an immediately preceding ENABLE DEVICE TYPE only; a standard opcode under a foreign device type decodes to the generic unknown command (library convention, see C01)",
 ]
 SANITY = ["tridonic_reports", "tridonic_gaps", "tridonic_subscriber_deliveries", "tridonic_failed_config_reports",
-          "tridonic_quirk_reports", "luba_reports", "sci_reports", "luba_extra_subscriber_reports", "sci_extra_subscriber_reports",
+          "tridonic_quirk_reports", "tridonic_late_joiner_reports", "luba_reports", "sci_reports", "luba_extra_subscriber_reports", "sci_extra_subscriber_reports",
           "luba_subscriber_op_sequences", "sci_subscriber_op_sequences"]
 BOUNDS = {"quick": "Tridonic: histories len<=2 at d<=2, len 3 at d<=1; serial: histories len<=3 (single schedule + chunk placement d<=1); subscribers <=2",
           "thorough": "Tridonic: len<=3 at d<=2, len 4 at d<=1; serial len<=4; subscribers <=3"}
@@ -107,15 +107,16 @@ def ref_buswatch(items, maptype="nomap", pairing=True):
     """Reference automaton.  items additionally contain ("GAP", ambiguous).  Returns a LIST of
     possible report lists (more than one only because of ambiguous gaps).  A report is
     (descriptor, answer, error) with answer None | ('none',) | ('value', v) | ('err',)."""
-    states = [([], None, 0)]         # (reports, current pending (desc, twice, frame), devicetype)
-    for it in items:
+    states = [([], None, 0, ())]     # (reports, current pending (desc, twice, frame), devicetype, index of the item that completed each report)
+    for idx, it in enumerate(items):
         new = []
-        for reports, cur, dt in states:
+        for reports, cur, dt, tags in states:
             alts = [it]
             if it[0] == "GAP" and it[1]:
                 alts = [("GAP", False), ("SKIP",)]
             for a in alts:
-                new.append(_step(list(reports), cur, dt, a, maptype, pairing))
+                r2, c2, d2 = _step(list(reports), cur, dt, a, maptype, pairing)
+                new.append((r2, c2, d2, tags + (idx,) * (len(r2) - len(reports))))
         # dedupe
         seen, states = set(), []
         for s in new:
@@ -198,7 +199,7 @@ def norm(reports):
 
 # ----------------------------------------------------------------------------- Tridonic world
 
-def make_trid_world(kinds, nsubs=0, own=None, with_map=False):
+def make_trid_world(kinds, nsubs=0, own=None, with_map=False, perm=True):
     def make():
         from dalimc.aio.hidworld import HidWorld, report
         from dali.device.helpers import DeviceInstanceTypeMapper
@@ -231,13 +232,16 @@ def make_trid_world(kinds, nsubs=0, own=None, with_map=False):
         w.subwindows = {}
         w.timer_budget = 3 * len(items) + 4
         w.with_map = with_map
+        w.perm_subscriber = perm          # False: NOBODY is subscribed until a subscriber joins (late-joiner scenarios)
         base_build = w.build
 
         w.traffic_batches = []
+        w.subreports = {}
 
         def build():
             base_build()
-            w.driver.bus_traffic.register(lambda drv, c, r, e: w.traffic_batches.append((id(c), w.loop.batches)))
+            if perm:
+                w.driver.bus_traffic.register(lambda drv, c, r, e: w.traffic_batches.append((id(c), w.loop.batches)))
             if with_map:
                 m = DeviceInstanceTypeMapper()
                 m.add_type(short_address=5, instance_number=1, instance_type=3)
@@ -250,7 +254,7 @@ def make_trid_world(kinds, nsubs=0, own=None, with_map=False):
             for k in range(w.nsubs):
                 if k not in w.subhandles and k not in w.subwindows:
                     ev.append((f"sub:{k}", lambda: True, (lambda k=k: _sub(w, k)), "event"))
-                elif k in w.subhandles:
+                elif k in w.subhandles and perm:      # (late-joiner scenarios: the subscriber stays)
                     ev.append((f"unsub:{k}", lambda: True, (lambda k=k: _unsub(w, k)), "event"))
             return ev
         w.extra_events = extra
@@ -260,8 +264,15 @@ def make_trid_world(kinds, nsubs=0, own=None, with_map=False):
 
 def _sub(w, k):
     w.sublog[k] = []
-    w.subhandles[k] = w.driver.bus_traffic.register(lambda drv, c, r, e, k=k: w.sublog[k].append(id(c)))
+    w.subreports[k] = []
+
+    def cb(drv, c, r, e, k=k):
+        w.sublog[k].append(id(c))
+        w.subreports[k].append((c, r, e))
+    w.subhandles[k] = w.driver.bus_traffic.register(cb)
     w.subwindows[k] = [w.loop.batches, None]
+    w.subjoin_pos = getattr(w, "subjoin_pos", {})
+    w.subjoin_pos[k] = len(w.trace)
 
 
 def _unsub(w, k):
@@ -273,6 +284,52 @@ def trid_items_from_trace(w):
     """Item sequence as the watcher experienced it: deliveries in order, own-send reports and
     GAPs where the timer fired.  Ambiguity of a gap = the loop was not idle when it fired."""
     return w.effective
+
+
+def judge_late_joiner(res, cfg, w, obs):
+    """Nobody is subscribed at first; subscriber 0 joins at some boundary.  It must receive exactly the reports that
+    are COMPLETED after it joined - decoded and paired as if the watcher had been listening all along (the
+    device type announced / the query / the first half of a send-twice command seen before the join count)."""
+    case = dict(cfg, t="tridonic")
+    maptype = 3 if cfg.get("with_map") else "nomap"
+    _, states = ref_buswatch(w.effective, maptype)
+    if w.status != "quiescent":
+        add_violation(res, "C20:tridonic:horizon", f"{cfg}: horizon", case)
+    got = norm([lib_report(c, r, e) for c, r, e in w.subreports.get(0, [])])
+    observe(res, "tridonic_late_joiner_reports", len(got))
+    if 0 not in w.subjoin_pos:
+        if got:
+            add_violation(res, "C20:tridonic:report-without-subscriber", f"{cfg}: {got}", case)
+        return ("never-joined",)
+    pj = w.subjoin_pos[0]                 # trace length when the subscriber was registered
+    ok = False
+    exp0 = None
+    for reports, cur, dt, tags in states:
+        reports = norm(reports)
+        # a report completed by item i is certainly seen when the item reached the driver after the join, certainly not
+        # when it had been processed and dispatched well before (>= 4 loop iterations earlier); in between either
+        definite = [r for r, t in zip(reports, tags) if w.effective_pos[t] >= pj]
+        maybe = [r for r, t in zip(reports, tags) if w.effective_pos[t] < pj and
+                 sum(1 for x in w.trace[w.effective_pos[t]:pj] if x == "run") < 4]
+        cands = [maybe[i:] + definite for i in range(len(maybe) + 1)]
+        if exp0 is None:
+            exp0 = definite
+        if got in cands:
+            ok = True
+            break
+    if not ok:
+        key = "late-joiner:reports-differ"
+        if exp0 is not None and [x[0] for x in got] == [x[0] for x in exp0]:
+            key = "late-joiner:pairing-or-flag"
+        elif exp0 is not None and len(got) < len(exp0):
+            key = "late-joiner:report-missing"
+        elif exp0 is not None and len(got) == len(exp0):
+            key = "late-joiner:decoded-in-wrong-context"
+        add_violation(res, f"C20:tridonic:{key}", f"history {cfg['kinds']} as experienced {w.effective}, subscriber joined at event {pj} "
+                      f"(items reached the driver at {w.effective_pos}): received {got}, expected {exp0}", case)
+    if w.loop_exceptions:
+        add_violation(res, "C20:tridonic:loop-exception", f"{cfg}: {w.loop_exceptions[:2]}", case)
+    return tuple(repr(x) for x in got)
 
 
 def judge_trid(res, cfg, w, obs):
@@ -319,7 +376,8 @@ def judge_trid(res, cfg, w, obs):
 
 
 def run_trid(cfg, bound, res, outs):
-    mk0 = make_trid_world(tuple(cfg["kinds"]), cfg.get("nsubs", 0), cfg.get("own"), cfg.get("with_map", False))
+    late = bool(cfg.get("late"))
+    mk0 = make_trid_world(tuple(cfg["kinds"]), cfg.get("nsubs", 0), cfg.get("own"), cfg.get("with_map", False), perm=not late)
 
     def mk():
         w = mk0()
@@ -362,24 +420,28 @@ def run_trid(cfg, bound, res, outs):
     for ch, (w, obs) in explore(lambda c: execute(mk, c), bound):
         # the item sequence as the watcher experienced it: deliveries in trace order, a GAP where the
         # timer fired; a gap is ambiguous when a delivery had not been fully processed yet (< 2 batches)
-        seq, i0, i1, unsettled = [], 0, 0, 0
-        for ev in w.trace:
+        seq, pos, i0, i1, unsettled = [], [], 0, 0, 0
+        for n, ev in enumerate(w.trace):
             if ev == "gw:0":
                 it = w.log0[i0]
                 i0 += 1
                 if it is not None:
                     seq.append(it)
+                    pos.append(n + 1)
                     unsettled = 2
             elif ev == "gw:1":
                 seq.append(w.log1[i1])
+                pos.append(n + 1)
                 i1 += 1
                 unsettled = 2
             elif ev == "run":
                 unsettled = max(0, unsettled - 1)
             elif ev == "timer":
                 seq.append(("GAP", unsettled > 0))
+                pos.append(n + 1)
         w.effective = seq
-        outs.add((tuple(cfg["kinds"]), judge_trid(res, cfg, w, obs)))
+        w.effective_pos = pos           # trace length right after the event that brought each item
+        outs.add((tuple(cfg["kinds"]), (judge_late_joiner if late else judge_trid)(res, cfg, w, obs)))
         res["evaluations"] += 1
         res["traces"] += 1
         res["transitions"] += len(w.trace)
@@ -657,6 +719,14 @@ def shards(tier):
     out.append(("trid", sel + [("event-devinst",), ("unknown24", "event-devinst")], 2, 0, "map"))
     for own in ("query", "twice"):
         out.append(("trid", [("plain",), ("query+answer",), ("config-once",), ("edt+ext",)], 2 if tier == "quick" else 3, 0, own))
+    # nobody subscribed at first, one subscriber joins at every boundary (a watcher that only works while somebody listens
+    # loses the device type / the pending query / the first half of a send-twice command)
+    late_kinds = ["query+answer", "query+silence", "config-twice", "config-once", "edt+ext", "edt+plain", "edt+cfg-twice", "cmd24+answer",
+                  "config24-twice", "plain", "event-devinst"]
+    out.append(("tridlate", [(k,) for k in late_kinds], 2))
+    L2l = [(a, b) for a in late_kinds for b in ("plain", "query+answer", "edt+ext", "config-twice")]
+    for i in range(0, len(L2l), 11):
+        out.append(("tridlate", L2l[i:i + 11], 1 if tier == "quick" else 2))
     # foreign frames that repeat the driver's own last transmission (reported by the gateway with the old sequence number)
     for own, q in (("query", ["own-query-again+answer", "own-query-again+silence"]), ("twice", ["own-config-again-twice", "own-config-again-once"])):
         hs = [(a,) for a in q] + [(a, b) for a in q for b in q + ["plain", "query+answer"]] + [(b, a) for a in q for b in ("plain", "config-once")]
@@ -681,7 +751,13 @@ def run_shard(shard):
     res = new_result()
     outs = set()
     k = shard[0]
-    if k == "trid":
+    if k == "tridlate":
+        _, hists, bound = shard
+        for h in hists:
+            cfg = dict(kinds=list(h), nsubs=1, own=None, with_map=False, bound=bound, late=True)
+            run_trid(cfg, bound, res, outs)
+        sample(res, {"driver": "tridonic", "late_joiner_histories": len(hists), "example": list(hists[-1]), "bound": bound})
+    elif k == "trid":
         _, hists, bound, nsubs, opt = shard
         for h in hists:
             cfg = dict(kinds=list(h), nsubs=nsubs, own=opt if opt in ("query", "twice") else None, with_map=(opt == "map"), bound=bound)
